@@ -73,7 +73,9 @@ KINDS = [('connect', {}), ('status', {'code': 500}), ('status', {'code': 503}), 
          ('status', {'code': 429, 'headers': {'retry-after': '2'}}), ('status', {'code': 503, 'headers': {'retry-after': '1'}}),
          ('status', {'code': 401}), ('status', {'code': 408}),
          ('reset-after-request-chunks', {'k': 0}), ('reset-after-request-chunks', {'k': 1}), ('reset-after-request-chunks', {'k': 2}),
-         ('drop-response-after', {'k': 0}), ('drop-response-after', {'k': 1}), ('drop-response-after', {'k': 3})]
+         ('drop-response-after', {'k': 0}), ('drop-response-after', {'k': 1}), ('drop-response-after', {'k': 3}),
+         # the peer closes the connection cleanly but early: httpx reports a protocol error, not a network error
+         ('protocol-error', {}), ('drop-response-after', {'k': 1, 'protocol': True})]
 
 
 def to_fault(kind, kw):
@@ -84,7 +86,9 @@ def to_fault(kind, kw):
         return FS.Fault('status', code=kw['code'], headers=kw.get('headers'), body=body)
     if kind == 'reset-after-request-chunks':
         return FS.Fault('fail-after-request-chunks', k=kw['k'])
-    return FS.Fault('drop-response-after', k=kw['k'])
+    if kind == 'protocol-error':
+        return FS.Fault('protocol-error')
+    return FS.Fault('drop-response-after', k=kw['k'], protocol=kw.get('protocol', False))
 
 
 OPS = ['upload', 'upload_stream', 'download', 'download_stream', 'exists', 'exists-missing', 'delete', 'delete-missing', 'list']
@@ -174,7 +178,10 @@ def http_case(args):
         be, fake = make_http(kind)
         state = initial_state(op)
         fake.o = dict(state)
-        if warm:
+        if warm == 'upload':
+            await _c(be.upload('data/aa/warmup', b'w'))
+            state['data/aa/warmup'] = b'w'
+        elif warm:
             await _c(be.exists('data/aa/one'))
         n0 = len(fake.requests)
         counts = {}
@@ -468,8 +475,20 @@ def local_case(args):
             step('fstat')
             return os.fstat(fd)
 
-    saved = (L.Path, L.NamedTemporaryFile, L.os)
-    L.Path, L.NamedTemporaryFile, L.os = KPath, ktemp, KOs()
+    import replicat.utils.fs as FSM
+
+    class KOsSub:
+        path = os.path
+
+        def __getattr__(self, k):
+            return getattr(os, k)
+
+        def scandir(self, p):
+            step('scandir-subdirectory')
+            return os.scandir(p)
+
+    saved = (L.Path, L.NamedTemporaryFile, L.os, FSM.os)
+    L.Path, L.NamedTemporaryFile, L.os, FSM.os = KPath, ktemp, KOs(), KOsSub()
     res = exc = src = None
     model = dict(state)
     try:
@@ -483,7 +502,7 @@ def local_case(args):
         except Exception as e:
             exc = e
     finally:
-        L.Path, L.NamedTemporaryFile, L.os = saved
+        L.Path, L.NamedTemporaryFile, L.os, FSM.os = saved
     truth = {}
     leftovers = []
     for d, _dirs, files in os.walk(root):
@@ -515,6 +534,10 @@ def local_op_cases(op):
         if out['exc'] is None:
             if op != 'list':
                 vs.append((dict(sig0, what='persistent-fault-ignored', position=pos[0]), detail0))
+            elif out['res'] != expected_result(op, out['state']):
+                # a listing that cannot be produced must fail, not come back incomplete
+                vs.append((dict(sig0, what='incomplete-listing-returned-without-error', position=f'{pos[0]}#{pos[1]}'),
+                           dict(detail0, got=out['res'], want=expected_result(op, out['state']))))
             continue
         if out['fails'] > BOUND:
             vs.append((dict(sig0, what='unbounded', position=pos[0]), dict(detail0, attempts=out['fails'])))
@@ -584,7 +607,8 @@ def replay(case):
 def main():
     t = common.tier()
     chk = common.Check(PID, 'fault_enumeration')
-    hcases = [(kind, op, warm, t) for kind in ('s3c', 'b2') for op in OPS for warm in (False, True)]
+    hcases = [(kind, op, warm, t) for kind in ('s3c', 'b2') for op in OPS for warm in (False, True)] + \
+        [('b2', op, 'upload', t) for op in ('upload', 'upload_stream')]
     n = 0
     budgets_all = {}
     for k, vs, b in common.pmap(http_op_cases, hcases, ordered=True):
